@@ -394,6 +394,44 @@ Proof.
   lia.
 Qed.
 
+(* the interest is exactly the floor of counted * (ARw - ARd) / ARd: only the
+   capacity beyond the occupied part earns, and it earns the AR growth *)
+Theorem withdraw_interest_exact cap occ dar war v :
+  maximum_withdraw cap occ dar war = Some v ->
+  (cap - occ) * war / dar < W64 -> dar <= war ->
+  v = cap + (cap - occ) * (war - dar) / dar.
+Proof.
+  intros H Hs Hle. destruct (withdraw_formula _ _ _ _ _ H Hs) as (Hoc & Hd & ->).
+  replace ((cap - occ) * war) with ((cap - occ) * dar + (cap - occ) * (war - dar)) by nia.
+  rewrite N.div_add_l by exact Hd. lia.
+Qed.
+
+(* waiting never pays less: the withdrawal is monotone in the withdrawing AR *)
+Theorem withdraw_monotone_in_ar cap occ dar war1 war2 v1 v2 :
+  maximum_withdraw cap occ dar war1 = Some v1 ->
+  maximum_withdraw cap occ dar war2 = Some v2 ->
+  (cap - occ) * war2 / dar < W64 -> war1 <= war2 -> v1 <= v2.
+Proof.
+  intros H1 H2 Hs Hle.
+  assert (Hdar : dar <> 0).
+  { unfold maximum_withdraw in H1. unbind H1. destruct (N.eqb_spec dar 0); [discriminate|assumption]. }
+  assert (Hq : (cap - occ) * war1 / dar <= (cap - occ) * war2 / dar).
+  { apply N.div_le_mono; [exact Hdar|]. apply N.mul_le_mono_l. exact Hle. }
+  destruct (withdraw_formula _ _ _ _ _ H1 ltac:(lia)) as (_ & _ & ->).
+  destruct (withdraw_formula _ _ _ _ _ H2 Hs) as (_ & _ & ->). lia.
+Qed.
+
+(* a cell that is all occupied capacity earns nothing, whatever the ARs *)
+Theorem withdraw_fully_occupied cap dar war v :
+  maximum_withdraw cap cap dar war = Some v -> v = cap.
+Proof.
+  intros H. assert (Hs : (cap - cap) * war / dar < W64).
+  { rewrite N.sub_diag, N.mul_0_l. replace (0 / dar) with 0 by (destruct dar; reflexivity).
+    reflexivity. }
+  destruct (withdraw_formula _ _ _ _ _ H Hs) as (_ & Hd & ->).
+  rewrite N.sub_diag, N.mul_0_l, N.div_0_l by exact Hd. lia.
+Qed.
+
 (* the fee of a transaction: its inputs at their maximum withdraw pay for its
    outputs and the fee — nothing else leaves or enters *)
 Theorem tx_fee_balance t f :
